@@ -190,6 +190,13 @@ func (ec *evalCtx) ident(name string) (TV, error) {
 	if tv, ok := ec.bind[name]; ok {
 		return tv, nil
 	}
+	if strings.HasPrefix(name, "$done") && ec.fr != nil {
+		key := fmt.Sprintf("X:loop%s@%d", strings.TrimPrefix(name, "$done"), ec.fr.frameID)
+		if !ec.st.has(key) {
+			return TV{}, fmt.Errorf("%s: no such loop", name)
+		}
+		return TV{T: c.get(ec.st, key), Ty: types.Typ[types.Bool]}, nil
+	}
 	if strings.HasPrefix(name, "$iter") && ec.fr != nil {
 		// $iterK: in an unrolled loop K the index of the current iteration; after it the number of
 		// iterations completed when the loop was left through its head
@@ -574,6 +581,26 @@ func (ec *evalCtx) binary(x *CBin) (TV, error) {
 			return TV{T: implies(a, b), Ty: boolT}, nil
 		default:
 			return TV{T: mk(SBool, "=", a, b), Ty: boolT}, nil
+		}
+	}
+	if x.Op == "==" || x.Op == "!=" {
+		// typeOf(v) == T with T written as a type (possibly *pkg.T)
+		for _, pair := range [][2]CExpr{{x.X, x.Y}, {x.Y, x.X}} {
+			if call, ok := pair[0].(*CCall); ok {
+				if id, ok := call.Fun.(*CIdent); ok && id.Name == "typeOf" {
+					if ty, ok := ec.asType(pair[1]); ok {
+						v, err := ec.eval(pair[0])
+						if err != nil {
+							return TV{}, err
+						}
+						t := eq(v.T, Term{fmt.Sprintf("%d", c.typeTag(ty)), SInt})
+						if x.Op == "!=" {
+							t = not(t)
+						}
+						return TV{T: t, Ty: boolT}, nil
+					}
+				}
+			}
 		}
 	}
 	a, err := ec.eval(x.X)
@@ -992,6 +1019,9 @@ func (ec *evalCtx) call(x *CCall) (TV, error) {
 			if err != nil {
 				return TV{}, err
 			}
+			if v.T.Sort != SIface {
+				return TV{}, fmt.Errorf("isNilIface needs an interface value, got %s", v.Ty)
+			}
 			return TV{T: eq(ifTag(v.T), Term{"0", SInt}), Ty: types.Typ[types.Bool]}, nil
 		}
 		if _, bound := ec.bind[id.Name]; !bound {
@@ -1194,6 +1224,9 @@ func (c *FuncCtx) instantiatePure(con *Contract, key string, names []string, ter
 	defer func() { c.pureDepth-- }()
 	ec := &evalCtx{c: c, st: st, old: st, bind: bind, pkgPath: pkgPath}
 	for _, cl := range con.Ensures {
+		if mentionsEvents(cl.Expr, nil) {
+			continue // about the function's own call sites: not part of its meaning as a pure function
+		}
 		t, err := ec.evalBool(cl.Expr)
 		if err != nil {
 			c.stale = append(c.stale, fmt.Sprintf("%s:%d: %v", cl.File, cl.Line, err))
@@ -1328,4 +1361,31 @@ func containsTypeParam(t types.Type) bool {
 		return containsTypeParam(u.Key()) || containsTypeParam(u.Elem())
 	}
 	return false
+}
+
+// asType interprets an expression as a type: T, pkg.T, *T, *pkg.T.
+func (ec *evalCtx) asType(e CExpr) (types.Type, bool) {
+	switch x := e.(type) {
+	case *CTypeExpr:
+		ty, err := ec.resolveType(x.T)
+		return ty, err == nil
+	case *CUn:
+		if x.Op == "*" {
+			if inner, ok := ec.asType(x.X); ok {
+				return types.NewPointer(inner), true
+			}
+		}
+	case *CIdent:
+		if _, bound := ec.bind[x.Name]; bound {
+			return nil, false
+		}
+		ty, err := ec.resolveType(&CType{Kind: "name", Name: x.Name})
+		return ty, err == nil
+	case *CSel:
+		if id, ok := x.X.(*CIdent); ok {
+			ty, err := ec.resolveType(&CType{Kind: "name", Name: id.Name + "." + x.Sel})
+			return ty, err == nil
+		}
+	}
+	return nil, false
 }
